@@ -72,12 +72,28 @@ def gen_namespace(rng, size: int) -> dict:
             n = parent + [TIE_PARTNER[rng.choice(sibs)] if sibs and rng.random() < 0.5 else rng.choice(SUBS)]
             if n not in nss:
                 nss.append(n)
-    lookup_types = []
-    if rng.random() < 0.7:
-        for i in range(rng.randrange(1, 3)):
-            ns = ['dep'] if rng.random() < 0.7 else ['dep', 'far']
-            lookup_types.append(dict(ns=ns, short='D%d' % i, major=rng.randrange(0, 3), minor=rng.randrange(1, 3), kind='struct',
-                                     fields=[('prim', 'uint8')], resp=[]))
+    # lookup roots (found through --lookup-dir, not generated): up to three, each under its OWN parent directory, with chains
+    # across roots through scalar fields, fixed / variable arrays and unions: gam (leaves) <- bet / dep <- the generated root
+    lookup_types: typing.List[dict] = []
+    if rng.random() < 0.8:
+        leaves = []
+        if rng.random() < 0.7:
+            for i in range(rng.randrange(1, 3)):
+                leaves.append(dict(ns=['gam'] if rng.random() < 0.6 else ['gam', 'deep'], short='G%d' % i, major=1, minor=rng.randrange(0, 3),
+                                   kind='struct', fields=[('prim', rng.choice(PRIMS))], resp=[]))
+        mids = []
+        for i in range(rng.randrange(1, 4)):
+            root2 = rng.choice(['dep', 'dep', 'bet'])
+            ns2 = [root2] if rng.random() < 0.7 else [root2, 'far']
+            fs = [('prim', 'uint8')]
+            for _ in range(rng.randrange(0, 3)):
+                if leaves and rng.random() < 0.8:
+                    fs.append(('comp', rng.choice(leaves), rng.choice(['', '[2]', '[<=3]', '[<=2]'])))
+                elif mids and rng.random() < 0.5:
+                    fs.append(('comp', rng.choice(mids), rng.choice(['', '[<=2]'])))
+            kind2 = 'union' if len(fs) >= 2 and rng.random() < 0.3 else 'struct'
+            mids.append(dict(ns=ns2, short='D%d' % i, major=rng.randrange(0, 3), minor=rng.randrange(1, 3), kind=kind2, fields=fs, resp=[]))
+        lookup_types = leaves + mids
     types: typing.List[dict] = []
     names = set()
     docs = rng.random() < 0.35          # non-ASCII documentation comments (locale finding): in a third of the namespaces
@@ -215,12 +231,16 @@ def runs_audit_on() -> typing.List[dict]:
     ]
 
 
+LOOKUP_PLACE = {'dep': 'in2', 'bet': 'third_party/b', 'gam': 'vendor/pkgs/g'}     # parent directory of each lookup root, relative to
+#                                                                                 the location; location B nests them differently
+
+
 def _mk_case(cid: str, lang: str, args: typing.List[str], ns: dict, audit: bool, user_templates: typing.Optional[str] = None,
             configs: bool = False) -> dict:
     dsdl, lookup = case_files(ns)
     a = LANG[lang]['base'] + list(args) + (['--embed-auditing-info'] if audit else [])
     return dict(id=cid, lang=lang, args=a, dsdl=dsdl, lookup=lookup, root=ns['root'],
-                lookup_roots=sorted({t['ns'][0] for t in ns['lookup']}), runs=runs_audit_on() if audit else runs_audit_off(),
+                lookup_roots=sorted({t['ns'][0] for t in ns['lookup']}), lookup_place=dict(LOOKUP_PLACE), runs=runs_audit_on() if audit else runs_audit_off(),
                 audit=audit, ns=ns, opt=args, user_templates=user_templates,
                 config_files=dict(CONFIG_FILES) if configs else {}, config_order=list(CONFIG_ORDER) if configs else [])
 
@@ -267,6 +287,19 @@ WITNESS_NATSORT_NS = dict(root='nat', lookup=[], types=[
     _t(['nat', 'x010'], 'A'), _t(['nat', 'unit7'], 'T07'), _t(['nat'], 'V1'), _t(['nat'], 'V01'),
     _t(['nat', 'Abc'], 'P'), _t(['nat', 'abc'], 'Q')])
 
+# three roots under three different parent directories; the generated root reaches the third only through ARRAY elements, unions
+# and a service half of types of the second (seed C07j: the Python pickle relativises against the roots it finds by walking)
+_G = dict(ns=['gam'], short='Atom', major=1, minor=0, kind='struct', fields=[('prim', 'uint8')], resp=[])
+_G2 = dict(ns=['gam', 'deep'], short='Quark', major=1, minor=0, kind='struct', fields=[('prim', 'float32')], resp=[])
+_B = dict(ns=['bet'], short='Leaf', major=1, minor=0, kind='struct', fields=[('comp', _G, ''), ('comp', _G2, '[<=2]')], resp=[])
+_BU = dict(ns=['bet', 'far'], short='Pick', major=1, minor=0, kind='union', fields=[('comp', _G2, ''), ('prim', 'uint8')], resp=[])
+WITNESS_ROOTS3_NS = dict(root='alpha', lookup=[_G, _G2, _B, _BU], types=[
+    dict(ns=['alpha'], short='Holder', major=1, minor=0, kind='struct', fields=[('comp', _B, '[<=3]'), ('prim', 'uint8')], resp=[]),
+    dict(ns=['alpha'], short='Fixed', major=1, minor=0, kind='struct', fields=[('comp', _BU, '[2]')], resp=[]),
+    dict(ns=['alpha'], short='Choice', major=1, minor=0, kind='union', fields=[('comp', _B, '[<=2]'), ('prim', 'uint16')], resp=[]),
+    dict(ns=['alpha'], short='Plain', major=1, minor=0, kind='struct', fields=[('comp', _B, '')], resp=[]),
+    dict(ns=['alpha', 'nested'], short='Get', major=1, minor=0, kind='service', fields=[('prim', 'uint8')], resp=[('comp', _BU, '[<=2]')])])
+
 WITNESS_LOCALE_NS = dict(root='ns', lookup=[], types=[
     dict(ns=['ns'], short='A', major=1, minor=0, kind='struct', doc=True, fields=[('prim', 'uint8')], resp=[])])
 
@@ -285,7 +318,7 @@ WITNESS_NS = dict(root='ns', lookup=[], types=[
 def run_impl(cases: typing.List[dict], jobs: int = 6) -> typing.Dict[str, dict]:
     base = core.scratch('c07-')
     doc = {'base': base, 'jobs': jobs,
-           'cases': [{k: c[k] for k in ('id', 'lang', 'args', 'dsdl', 'lookup', 'root', 'lookup_roots', 'runs', 'user_templates', 'config_files', 'config_order') if k in c} for c in cases]}
+           'cases': [{k: c[k] for k in ('id', 'lang', 'args', 'dsdl', 'lookup', 'root', 'lookup_roots', 'lookup_place', 'runs', 'user_templates', 'config_files', 'config_order') if k in c} for c in cases]}
     p = core.run([core.PY, os.path.join(core.VERIF, 'tools', 'harness', 'c07_impl.py')], input=json.dumps(doc),
                  env=core.repo_env(), timeout=3000)
     shutil.rmtree(base, ignore_errors=True)
@@ -490,7 +523,7 @@ def shrink(case: dict, bad_run: str, still_fails) -> dict:
 
 
 def strip(case: dict) -> dict:
-    return {k: case[k] for k in ('id', 'lang', 'args', 'dsdl', 'lookup', 'root', 'lookup_roots', 'runs', 'audit', 'opt', 'ns', 'user_templates', 'config_files', 'config_order') if k in case}
+    return {k: case[k] for k in ('id', 'lang', 'args', 'dsdl', 'lookup', 'root', 'lookup_roots', 'lookup_place', 'runs', 'audit', 'opt', 'ns', 'user_templates', 'config_files', 'config_order') if k in case}
 
 
 # ---- main ----------------------------------------------------------------------------------------------------------------------
@@ -512,6 +545,9 @@ def build_cases(chk: core.Check) -> typing.List[dict]:
     cases[0]['runs'] = [r for r in cases[0]['runs'] if r['name'] in ('R0', 'Rloc', 'Rh1')]
     cases.append(mk_case('w-state', 'py', [], WITNESS_STATE_NS, False))
     cases[1]['runs'] = [r for r in cases[1]['runs'] if r['name'] in ('R0', 'Rh1', 'Rh2', 'Rclk')]
+    for lang in ('py', 'c'):
+        cases.append(mk_case('w-roots3-%s' % lang, lang, [], WITNESS_ROOTS3_NS, False))
+        cases[-1]['runs'] = [r for r in cases[-1]['runs'] if r['name'] in ('R0', 'Rloc', 'Rall', 'Rh1', 'Rcwd')]
     cases.append(mk_case('w-locale', 'c', [], WITNESS_LOCALE_NS, False))
     cases[-1]['runs'] = [r for r in cases[-1]['runs'] if r['name'] in ('R0', 'Renv', 'Rh1')]
     # corpus: F-HTML-NATSORT-TIE (fixed): sibling namespaces and types whose names tie under the natural-sort key
@@ -624,7 +660,7 @@ def main(chk: core.Check, replay: typing.Optional[str] = None) -> int:
 
     stats = {'cases': len(cases), 'runs': 0, 'files_hashed': 0, 'pairs_compared': 0, 'file_pairs_compared': 0,
              'known_finding_instances': 0, 'audit_on_cases': 0, 'audit_on_file_pairs_differing': 0, 'audit_on_file_pairs_equal': 0,
-             'model_checks': 0, 'by_lang': {}, 'with_lookup_deps': 0, 'with_nested_ns': 0, 'with_service': 0, 'with_union': 0, 'with_user_templates': 0, 'with_two_config_files': 0, 'reused_output_dir_pairs': 0, 'with_natsort_ties': 0,
+             'model_checks': 0, 'by_lang': {}, 'with_lookup_deps': 0, 'with_three_roots': 0, 'with_cross_root_array_chain': 0, 'with_nested_ns': 0, 'with_service': 0, 'with_union': 0, 'with_user_templates': 0, 'with_two_config_files': 0, 'reused_output_dir_pairs': 0, 'with_natsort_ties': 0,
              'types_total': 0, 'invalid_inputs': 0, 'known_state_instances': 0, 'known_locale_instances': 0, 'pairs_with_different_write_order': 0}
     violations: typing.List[typing.Tuple[dict, dict]] = []
     distinct = set()
@@ -634,6 +670,11 @@ def main(chk: core.Check, replay: typing.Optional[str] = None) -> int:
         stats['by_lang'][c['lang']] = stats['by_lang'].get(c['lang'], 0) + 1
         ns = c.get('ns', {})
         stats['with_lookup_deps'] += bool(ns.get('lookup'))
+        stats['with_three_roots'] += len({t['ns'][0] for t in ns.get('lookup', [])}) >= 2
+        stats['with_cross_root_array_chain'] += any(
+            f[0] == 'comp' and f[2] and f[1]['ns'][0] != t['ns'][0] and any(g[0] == 'comp' and g[1]['ns'][0] not in (t['ns'][0], f[1]['ns'][0])
+                                                                            for g in f[1]['fields'])
+            for t in ns.get('types', []) for f in t['fields'] + t['resp'])
         stats['with_user_templates'] += bool(c.get('user_templates'))
         stats['with_two_config_files'] += bool(c.get('config_order'))
         stats['reused_output_dir_pairs'] += sum(1 for x in c['runs'] if x.get('pre_args') is not None)
